@@ -2,7 +2,7 @@
 """Hand-written single-edit mutants (a test of rule power, used during development and by DESIGN §10).
 Each mutant: (id, file, old text, new text, properties expected to report it).
 Applies each to /repo's working tree, checks that it still compiles, runs the expected checks, reverts."""
-import subprocess, sys, os, json
+import subprocess, sys, os, json, shutil
 
 ENV = dict(os.environ, GOFLAGS="-mod=mod", GOPROXY="off", GOSUMDB="off", GOTOOLCHAIN="local")
 ENV.pop("GOWORK", None)
@@ -102,7 +102,10 @@ def main():
                 continue
             det = []
             for p in props:
-                rc, out = sh("/verif/run.sh %s quick" % p, cwd="/verif")
+                # evidence / violation files of these runs on a mutated tree go to a scratch directory, never to /verif
+                os.makedirs("/tmp/seedwt/micro.verif", exist_ok=True)
+                shutil.copy("/verif/known_findings.json", "/tmp/seedwt/micro.verif")
+                rc, out = sh("/verif/bin/gmvcheck -prop %s -tier quick -repo /repo -verif /tmp/seedwt/micro.verif" % p, cwd="/verif")
                 lines = [l for l in out.splitlines() if "[R" in l and not l.startswith("KNOWN")]
                 status = {0: "MISSED", 1: "VIOLATION", 2: "BROKEN"}.get(rc, str(rc))
                 det.append((p, status, (lines[0][:160] if lines else "")))
